@@ -81,6 +81,33 @@ def replay(prop, body):
         return RP.write_and_run(prop, job.name + "." + ob["name"], hdr, ['"TasmanianSparseGrid.hpp"', '<cmath>', '<sstream>'], body, "  main_replay();", lib="sg", timeout=120)
     return rp
 
+REPLAY_RELOAD = r'''
+/* On the real library: a Global / Fourier grid in dynamic construction with some candidates loaded (tensors half computed) is written and read back;
+ * the restored grid must ask for exactly the candidates the original still asks for (a checkpointed sample is never requested again). */
+int main_replay(){
+  using namespace TasGrid;
+  int bad = 0;
+  for (int fam = 0; fam < 2; fam++) for (int fresh = 0; fresh < 2; fresh++) for (int nload = 1; nload <= 5; nload++) {
+    TasmanianSparseGrid g = fam == 0 ? makeGlobalGrid(2, 1, fresh ? 2 : 1, type_level, rule_clenshawcurtis) : makeFourierGrid(2, 1, fresh ? 2 : 1, type_level);
+    if (!fresh) {   /* otherwise the construction starts from the initial tensors of an unloaded grid */
+      std::vector<double> p = g.getNeededPoints(), v(g.getNumNeeded()); for (int i = 0; i < g.getNumNeeded(); i++) v[i] = std::exp(p[2*i] - p[2*i+1]);
+      g.loadNeededValues(v);
+    }
+    g.beginConstruction();
+    std::vector<double> c = g.getCandidateConstructionPoints(type_level, 0);
+    for (int k = 0; k < nload && (size_t) k < c.size() / 2; k++) g.loadConstructedPoints(std::vector<double>{c[2*k], c[2*k+1]}, std::vector<double>{std::exp(c[2*k] - c[2*k+1])});
+    std::stringstream ss; g.write(ss, true);
+    TasmanianSparseGrid r; r.read(ss, true);
+    std::vector<double> c1 = g.getCandidateConstructionPoints(type_level, 0), c2 = r.getCandidateConstructionPoints(type_level, 0);
+    if (c1 != c2) { std::printf("%s%s, %d candidates loaded: the restored grid asks for %zu candidates, the original for %zu\n", fam ? "Fourier" : "Global", fresh ? " (from scratch)" : "", nload, c2.size() / 2, c1.size() / 2); bad++; }
+  }
+  __CPROVER_assert(bad == 0, "C17 a restored construction does not ask again for samples that were checkpointed");
+  return 0;
+}
+'''
+def replay_reload(prop):
+    return replay(prop, REPLAY_RELOAD)
+
 def _ctor_order():
     """the read constructor initialises tensors from readTensorDataList and then data from readNodeDataList (declaration order of the members decides)"""
     ht = X.strip_comments(X.read_source(dyncon.HPP))
@@ -123,4 +150,13 @@ def jobs(tier, seed, prop):
                        bounded="at most %d tensors (full unwinding with unwinding assertions)" % nl,
                        assumed=["std::forward_list semantics as in the shim (rule R5fl)", "tensor weights are not NaN"],
                        label="clearTesnors drops every non-initial tensor and keeps the initial ones in order"))
+    if prop == "C17":
+        R = X.Rules()
+        t, info = dyncon.emit_reload(R)
+        t2 = [t_ for k, a, t_ in cf.sections if k == "text2"][0]
+        out.append(Job("dyncon.reloadPoints", pre + t2 + t + cf.text(("harness",), ["h_reloadPoints"]), "h_reloadPoints", unwind=nl * nl + 3, timeout=600, backends=[["--sat-solver", "cadical"], []],
+                       functions=["%s:%d %s" % (f["file"], f["line"], f["name"]) for f in info["functions"]], info=info, replay=replay_reload(prop),
+                       bounded="at most %d tensors, %d stored nodes, 3 points per tensor (full unwinding with unwinding assertions)" % (nl, nl),
+                       assumed=["generateNestedPoints / MultiIndexSet::getSlot as ghost functions (getSlot is under contract in the indexsets unit)", "std::forward_list semantics as in the shim (rule R5fl)"],
+                       label="reloadPoints: loaded flags of the candidate tensors are rebuilt exactly from the stored nodes"))
     return out
